@@ -21,6 +21,7 @@ import tempfile
 HERE = os.path.dirname(os.path.abspath(__file__))
 sys.path.insert(0, HERE)
 import vcgen  # noqa: E402
+import vcarray  # noqa: E402
 
 ORD_LAWS = ['le_iff_not_lt_swapped', 'ge_iff_le_swapped', 'gt_iff_lt_swapped', 'total', 'lt_irreflexive',
             'lt_consistent_with_equal', 'lt_transitive']
@@ -163,6 +164,148 @@ MUTANTS = [
 ]
 
 
+# ----------------------------------------------------------------------------- array mutants (C26)
+
+def fn_body(src, name, new_body):
+    """Replace the body of `fn name(...)` inside the first `extend array<T> {` block."""
+    start = src.index("extend array<T> {")
+    f = src.index("    fn %s(" % name, start)
+    b = src.index("{", f)
+    depth, i = 0, b
+    while True:
+        if src[i] == '{':
+            depth += 1
+        elif src[i] == '}':
+            depth -= 1
+            if depth == 0:
+                break
+        i += 1
+    return src[:b] + "{\n" + new_body + "    }" + src[i + 1:]
+
+
+A = "array."
+ARRAY_MUTANTS = [
+    # ---- the four requested ones: each must make a named obligation FAIL
+    ("(1) regression handed over by an independent engineer: remove = `let last = self.pop()  if index < self.len() { self[index] = last }` "
+     "(index >= len on a non-empty array silently drops the last element)", 'fail',
+     lambda s: fn_body(s, "remove", "        let last = self.pop()\n        if index < self.len() { self[index] = last }\n"),
+     [A + "remove.model"]),
+    ("(2) swap without the temp", 'fail',
+     lambda s: fn_body(s, "swap", "      self[i] = self[j]\n      self[j] = self[i]\n"),
+     [A + "swap.model"]),
+    ("(3) is_empty as `self.len() == 1`", 'fail',
+     lambda s: s.replace("        self.len() == 0\n", "        self.len() == 1\n", 1),
+     [A + "is_empty.model"]),
+    ("(4) remove pops before swapping", 'fail',
+     lambda s: fn_body(s, "remove", "        self.pop()\n        self.swap(index, self.len()-1)\n        nil\n"),
+     [A + "remove.model", A + "remove.permutation"]),
+    # ---- further mutants that must FAIL
+    ("remove accepts negative indices silently (`if index >= 0 { ... }`)", 'fail',
+     lambda s: fn_body(s, "remove", "        if index >= 0 {\n            self.swap(index, self.len()-1)\n            self.pop()\n        }\n        nil\n"),
+     [A + "remove.model"]),
+    ("remove overwrites position index with the last element but forgets to pop", 'fail',
+     lambda s: fn_body(s, "remove", "        self.swap(index, self.len()-1)\n        nil\n"),
+     [A + "remove.model", A + "remove.permutation"]),
+    ("remove = swap with position 0 instead of the last, then pop", 'fail',
+     lambda s: s.replace("self.swap(index, self.len()-1)", "self.swap(index, 0)", 1),
+     [A + "remove.permutation", A + "remove.order_code_derived"]),
+    ("remove pops first and writes the saved last element (out-of-range index leaves a shortened array at the error)", 'fail',
+     lambda s: fn_body(s, "remove", "        let last = self.pop()\n        self[index] = last\n        nil\n"),
+     [A + "remove.model"]),
+    ("push pushes twice", 'fail',
+     lambda s: s.replace("        array_push(self, x)\n", "        array_push(self, x)\n        array_push(self, x)\n", 1),
+     [A + "push.model"]),
+    ("len is off by one", 'fail',
+     lambda s: s.replace("        array_length(self)\n", "        array_length(self) - 1\n", 1),
+     [A + "len.model"]),
+    ("pop returns the last element without removing it", 'fail',
+     lambda s: fn_body(s, "pop", "        self[self.len()-1]\n"),
+     [A + "pop.model"]),
+    ("swap writes slot i before reading slot j (partial modification when only j is out of range)", 'fail',
+     lambda s: fn_body(s, "swap", "      let temp = self[i]\n      self[i] = self[self.len()-1]\n      self[i] = self[j]\n      self[j] = temp\n"),
+     [A + "swap.error_leaves_array_unchanged"]),
+    ("bounds = range(1, len)", 'refuse',
+     lambda s: s.replace("range(0, self.len())", "range(1, self.len())", 1),
+     [A + "bounds.model"]),
+    # ---- must stay exactly as the baseline
+    ("swap with a differently named temp and an unused binding", 'same',
+     lambda s: fn_body(s, "swap", "      let t = self[i]\n      let _ = self.len()\n      self[i] = self[j]\n      self[j] = t\n"), []),
+    ("remove with the last index hoisted into a let", 'same',
+     lambda s: fn_body(s, "remove", "        let last = self.len() - 1\n        self.swap(index, last)\n        self.pop()\n        nil\n"), []),
+    ("remove written with an explicit range check that agrees with the primitives", 'same',
+     lambda s: fn_body(s, "remove", "        if index >= 0 and index < self.len() {\n            self.swap(index, self.len()-1)\n            self.pop()\n        } else {\n            self[index]\n        }\n        nil\n"), []),
+    ("is_empty as `not (self.len() > 0)`", 'same',
+     lambda s: s.replace("        self.len() == 0\n", "        not (self.len() > 0)\n", 1), []),
+    # ---- must be refused (UNDECIDED)
+    ("`while` loop inside swap", 'refuse',
+     lambda s: fn_body(s, "swap", "      let temp = self[i]\n      while false { }\n      self[i] = self[j]\n      self[j] = temp\n"),
+     [A + "swap.model", A + "remove.model"]),
+    ("remove calls the loop-containing `self.clear()`", 'refuse',
+     lambda s: fn_body(s, "remove", "        self.clear()\n        nil\n"),
+     [A + "remove.model"]),
+    ("unknown intrinsic in pop", 'refuse',
+     lambda s: s.replace("        array_pop(self)\n", "        array_pop_front(self)\n", 1),
+     [A + "pop.model"]),
+    ("array aliased by a local (`let a = self`)", 'refuse',
+     lambda s: fn_body(s, "len", "        let a = self\n        array_length(a)\n"),
+     [A + "len.model"]),
+    ("multiplication in remove", 'refuse',
+     lambda s: s.replace("self.swap(index, self.len()-1)", "self.swap(index * 1, self.len()-1)", 1),
+     [A + "remove.model"]),
+    ("a second `fn swap` in another `extend array<...>` block", 'refuse',
+     lambda s: s + "\nextend array<T Equal> {\n    fn swap(self, i, j) {\n      nil\n    }\n}\n",
+     [A + "swap.model"]),
+    ("element comparison (`self[i] == self[j]`, would call T's Equal) in swap", 'refuse',
+     lambda s: fn_body(s, "swap", "      if self[i] == self[j] { nil } else { nil }\n      let temp = self[i]\n      self[i] = self[j]\n      self[j] = temp\n"),
+     [A + "swap.model"]),
+]
+
+
+def array_statuses(out):
+    return {o['id'][len("C26.prelude."):]: o['status'] for o in out['obligations']}
+
+
+def run_array_mutants(src, d, prelude_path):
+    results = []
+    base = array_statuses(vcarray.analyse_array(prelude_path, with_canaries=False))
+    for i, (desc, kind_, mut, named) in enumerate(ARRAY_MUTANTS):
+        res = dict(n="A%02d" % (i + 1), mutation=desc, kind=kind_, named=named)
+        try:
+            msrc = mut(src)
+        except ValueError:
+            res.update(ok=False, why="mutation anchor not found in this prelude")
+            results.append(res)
+            continue
+        if msrc == src:
+            res.update(ok=False, why="mutation anchor not found in this prelude (text unchanged)")
+            results.append(res)
+            continue
+        path = os.path.join(d, "prelude_a%02d.abra" % (i + 1))
+        with open(path, 'w', encoding='utf-8') as f:
+            f.write(msrc)
+        out = vcarray.analyse_array(path, with_canaries=False)
+        if out.get('fatal'):
+            res.update(ok=False, why="unexpected fatal: " + out['fatal'])
+            results.append(res)
+            continue
+        st = array_statuses(out)
+        changed = {k: (base[k], v) for k, v in st.items() if base.get(k) != v}
+        res['changed'] = {k: "%s->%s" % v for k, v in sorted(changed.items())}
+        res['cex'] = {o['id'][len("C26.prelude."):]: o.get('cex') for o in out['obligations'] if o.get('cex') and o['id'][len("C26.prelude."):] in named}
+        if kind_ == 'fail':
+            missing = [k for k in named if st.get(k) != 'failed']
+            res.update(ok=not missing, why="not failed: %s" % missing if missing else "")
+        elif kind_ == 'same':
+            res.update(ok=not changed, why="statuses changed" if changed else "")
+        else:
+            missing = [k for k in named if st.get(k) != 'undecided']
+            guessed = [k for k, (b, v) in changed.items() if v != 'undecided']
+            res.update(ok=not missing and not guessed,
+                       why=("not undecided: %s " % missing if missing else "") + ("verdict changed without being refused: %s" % guessed if guessed else ""))
+        results.append(res)
+    return results
+
+
 def statuses(out):
     return {"%s.%s" % (o['type'], o['law']): o['status'] for o in out['obligations']}
 
@@ -171,14 +314,16 @@ def main():
     ap = argparse.ArgumentParser()
     ap.add_argument('--prelude', default=os.path.join(os.environ.get("ABRA_REPO", "/repo"), "modules/prelude.abra"))
     ap.add_argument('--json', action='store_true')
+    ap.add_argument('--no-arrays', action='store_true')
+    ap.add_argument('--only-arrays', action='store_true')
     args = ap.parse_args()
     with open(args.prelude, encoding='utf-8') as f:
         src = f.read()
     d = tempfile.mkdtemp(prefix="abra-verif.u16self.")
     results = []
     try:
-        base = statuses(vcgen.analyse(args.prelude, canaries=False))
-        for i, (desc, kind_, mut, named) in enumerate(MUTANTS):
+        base = statuses(vcgen.analyse(args.prelude, canaries=False, arrays=False))
+        for i, (desc, kind_, mut, named) in enumerate([] if args.only_arrays else MUTANTS):
             res = dict(n=i + 1, mutation=desc, kind=kind_, named=named)
             try:
                 msrc = mut(src)
@@ -193,7 +338,7 @@ def main():
             path = os.path.join(d, "prelude_m%02d.abra" % (i + 1))
             with open(path, 'w', encoding='utf-8') as f:
                 f.write(msrc)
-            out = vcgen.analyse(path, canaries=False)
+            out = vcgen.analyse(path, canaries=False, arrays=False)
             if kind_ == 'fatal':
                 res.update(ok=bool(out.get('fatal')), why=out.get('fatal', 'not refused'))
                 results.append(res)
@@ -217,6 +362,8 @@ def main():
                 res.update(ok=not missing and not guessed,
                            why=("not undecided: %s " % missing if missing else "") + ("verdict changed without being refused: %s" % guessed if guessed else ""))
             results.append(res)
+        if not args.no_arrays:
+            results += run_array_mutants(src, d, args.prelude)
     finally:
         shutil.rmtree(d, ignore_errors=True)
     ok = all(r['ok'] for r in results)
@@ -224,7 +371,7 @@ def main():
         print(json.dumps(dict(ok=ok, n=len(results), results=results)))
     else:
         for r in results:
-            print("%s M%02d [%s] %s" % ("ok  " if r['ok'] else "MISS", r['n'], r['kind'], r['mutation']))
+            print("%s %s [%s] %s" % ("ok  " if r['ok'] else "MISS", ("M%02d" % r['n']) if isinstance(r['n'], int) else r['n'], r['kind'], r['mutation']))
             if r.get('changed'):
                 print("        " + ", ".join("%s %s" % kv for kv in r['changed'].items()))
             if r.get('why'):
